@@ -102,6 +102,8 @@ class FftHooks(Hooks):
                 if not any(f.tilt for f in w.data):
                     exp = None          # premise: the wavefront really carries tilt metadata
                     it.probe('tilt_premise_failed')
+                elif any(type(t).__name__ != 'Tilt' for f in w.data for t in f.tilt):
+                    it.probe('refuse:tilt-not-angular')
             if exp == 'refuse':
                 it.fault('refuse')
                 it.probe('check:refuse')
@@ -171,7 +173,7 @@ class FftScenario(Scenario):
                    'per-axis pixel scales are generated commensurate with one propagation wavelength; otherwise FFT != DFT by construction',
                    'the DFT reference is the real propagate_dft (an error common to both propagators is C01/C02 territory)']
     must_hit = ['grid:odd', 'grid:even', 'odd_pupil_even_grid', 'multifield_scratch', 'scratch:exact', 'scratch:larger',
-                'grid_shrinks', 'grid_grows', 'refuse:short-scratch', 'refuse:tilt', 'refuse:big-shape']
+                'grid_shrinks', 'grid_grows', 'refuse:short-scratch', 'refuse:tilt', 'refuse:big-shape', 'refuse:tilt-not-angular']
     probe_names = must_hit + ['grid:mixed', 'coldwarm_audit']
 
     def make_fns(self):
@@ -314,9 +316,16 @@ class FftScenario(Scenario):
                             kb['scratch'] = '@' + sc
                         ev.append(E('propagate_fft', ['@' + w1], kb, t={'expect': 'refuse', 'case': case}))
                     elif case == 'tilt':
-                        how = rng.choice(['Tilt', 'wavefront', 'fit'])
+                        how = force.get('tilt_how') or rng.choice(['Tilt', 'wavefront', 'fit', 'Dispersive', 'Dispersive', 'Grism'])
                         wt = nid('w')
-                        if how == 'Tilt':
+                        if how in ('Dispersive', 'Grism'):
+                            # tilt metadata that is not an angular Tilt object: every tilt-interface plane displaces the image
+                            tl = nid('t')
+                            tr = rng.choice([[0.5, 0.0], [-1.2, 1e-6], [2.0, 0.3, 0.0]])
+                            ev.append(E('DispersiveTilt' if how == 'Dispersive' else 'Grism', None,
+                                        {'trace': tr, 'dispersion': [rng.choice([1e-3, -2e-3]), lam[i] - rng.choice([2e-8, -3e-8])]}, id=tl))
+                            ev.append(E(rng.choice(['Plane.multiply', 'p*w']), ['@' + tl, '@' + w1], id=wt))
+                        elif how == 'Tilt':
                             tl = nid('t')
                             ev.append(E('Tilt', None, {'x': 1e-6, 'y': -2e-6}, id=tl))
                             ev.append(E('Plane.multiply', ['@' + tl, '@' + w1], id=wt))
@@ -371,7 +380,7 @@ class FftScenario(Scenario):
         runs = []
         cases = [
             {'S': [3, 5], 'os': 1, 'grids': [8, 12, 6, 9, 13], 'scratch': 'exact', 'fill': 'nan', 'seg': False, 'peraxis': False,
-             'refusals': ['short-scratch', 'tilt', 'big-shape']},
+             'refusals': ['short-scratch', 'tilt', 'big-shape'], 'tilt_how': 'Dispersive'},
             {'S': [4, 7], 'os': 2, 'grids': [9, 14, 7, 11], 'scratch': 'larger', 'fill': 'garbage', 'seg': True, 'peraxis': False,
              'refusals': ['short-scratch', 'tilt', 'big-shape']},
             {'S': [5, 5], 'os': 1, 'grids': [7, 9, 6], 'scratch': 'exact', 'fill': 'inf', 'seg': True, 'peraxis': False,
